@@ -454,7 +454,7 @@ class Encoder(Coder):
         :return:
         """
         self.process_numeric(state, bit_writer, descriptor, nbits, scale_powered,
-                             state.new_refvals[descriptor.id] * refval_factor)
+                             state.new_refvals.get(descriptor.id, descriptor.refval) * refval_factor)
 
     def process_constant_uncompressed(self, state, bit_writer, descriptor, value):
         """
